@@ -136,10 +136,36 @@ def is_status_publish(call: ast.Call, job_var: Optional[str] = None, fn: Optiona
     return job_var is None or names[0] == job_var
 
 
-def helper_always_publishes(repo: Repo, mod, call: ast.Call) -> Optional[Tuple[ast.FunctionDef, int]]:
-    """If *call* resolves to a repo function all of whose normally-returning paths publish a
-    status whose job id is one of its parameters, return (function, index of that parameter).
-    (Only needed for helpers the normaliser does not inline, e.g. public ones.)"""
+def job_may_raise(repo: Repo, mod, fn: ast.AST, scope: ast.AST):
+    """may_raise model of D1 for *fn*: logger calls (receiver is a logger by role), dict.get on a message's
+    metadata, a few total builtins and the statements of the exception handlers inside *scope* do not raise
+    (assumptions recorded by run()); any other call and every `raise` raises the Exception class."""
+    loggers = logger_receivers(repo, mod, fn)
+    handler_stmts = {id(x) for h in ast.walk(scope) if isinstance(h, ast.ExceptHandler) for st in h.body for x in ast.walk(st)}
+
+    def may_raise(part: ast.AST) -> Set[str]:
+        if id(part) in handler_stmts and not isinstance(part, ast.Raise):
+            return set()  # assumption: the failure handlers themselves do not raise before publishing
+        for n in walk_no_nested(part):
+            if isinstance(n, (ast.Raise,)):
+                return {EXC}
+            if isinstance(n, ast.Call):
+                d = call_name(n) or ""
+                if isinstance(n.func, ast.Attribute) and n.func.attr in LOG_METHODS and dotted_name(n.func.value) in loggers:
+                    continue
+                if d in ("isinstance", "all", "any", "str", "type", "bool", "len") or (d.endswith(".metadata.get") and d.count(".") == 2):
+                    continue
+                return {EXC}
+        return set()
+
+    return may_raise
+
+
+def helper_always_publishes(repo: Repo, mod, call: ast.Call) -> Optional[Tuple[ast.FunctionDef, int, bool]]:
+    """Summary of a helper the normaliser did not inline (public, too large, returns inside try): if *call*
+    resolves to one repo function none of whose normally-returning paths avoids a status publish for the job
+    id it receives as a parameter, return (function, index of that parameter, can_raise_unpublished) - the
+    last item tells whether an exception can leave the helper before any status was published."""
     targets = repo.resolve_call(mod, call)
     if len(targets) != 1:
         return None
@@ -147,7 +173,7 @@ def helper_always_publishes(repo: Repo, mod, call: ast.Call) -> Optional[Tuple[a
     if not isinstance(fn, FuncNode):
         return None
     try:
-        fn = nfunc(repo, tm.rel, qualname_of(fn), copyprop="all")
+        fn = nfunc(repo, tm.rel, qualname_of(fn))
     except Exception:
         pass
     params = [a.arg for a in fn.args.args]
@@ -159,11 +185,12 @@ def helper_always_publishes(repo: Repo, mod, call: ast.Call) -> Optional[Tuple[a
     jp = t[1][0]
     if jp not in params or any(isinstance(n, ast.Name) and n.id == jp and isinstance(n.ctx, ast.Store) for n in walk_no_nested(fn)):
         return None
-    g = CFG(fn)
-    bad = g.must_pass([g.entry], [g.ret_exit], lambda n: n.ast is not None and n.kind == "stmt" and any(is_status_publish(c, jp, fn) for c in calls_in(n.ast)))
-    if bad:
+    g = CFG(fn, may_raise=job_may_raise(repo, tm, fn, fn))
+    pub = {n.id for n in g.nodes if n.ast is not None and n.kind == "stmt" and any(is_status_publish(c, jp, fn) for c in calls_in(n.ast))}
+    seen, _path = reach_with_flags(g, [g.entry], pub, set(), _flag_names(fn), {BASE})
+    if g.ret_exit in seen:
         return None
-    return fn, params.index(jp)
+    return fn, params.index(jp), g.exc_exit in seen
 
 
 def metadata_keys(call: ast.Call, fn: Optional[ast.AST] = None) -> Optional[Dict[str, ast.AST]]:
@@ -184,10 +211,11 @@ def _flag_names(fn: ast.AST) -> Set[str]:
             stores[n.id] = stores.get(n.id, 0) + 1
         elif isinstance(n, ast.ExceptHandler) and n.name:
             stores[n.name] = stores.get(n.name, 0) + 99
+    nested = {n.id for f in ast.walk(fn) if isinstance(f, FuncNode + (ast.Lambda,)) and f is not fn for n in ast.walk(f) if isinstance(n, ast.Name) and isinstance(n.ctx, (ast.Store, ast.Del))}
     out = set()
     for nm, cnt in stores.items():
         vals = assigned_value(fn, nm)
-        if nm not in params and len(vals) == cnt and all(isinstance(v, ast.Constant) and isinstance(v.value, bool) for v in vals):
+        if nm not in params and nm not in nested and len(vals) == cnt and all(isinstance(v, ast.Constant) and isinstance(v.value, bool) for v in vals):
             single = [n for n in walk_no_nested(fn) if isinstance(n, ast.Assign) and any(isinstance(t, ast.Name) and t.id == nm for t in n.targets)]
             if all(len(n.targets) == 1 for n in single):
                 out.add(nm)
@@ -216,10 +244,12 @@ def _eval_flags(test: ast.AST, env: Dict[str, Optional[bool]]) -> Optional[bool]
     return None
 
 
-def reach_with_flags(g: CFG, starts: List[int], blocked: Set[int], flags: Set[str], skip_labels: Set[str]):
+def reach_with_flags(g: CFG, starts: List[int], blocked: Set[int], sealed: Set[int], flags: Set[str], skip_labels: Set[str]):
     """Reachability that keeps the value of constant-only boolean locals along each path, so that a branch on
     such a flag is followed only in the direction the path's own assignments allow (no infeasible paths
-    through `done = True ... if not done:`).  Returns {node: (path as list of node ids)} for the first visit."""
+    through `done = True ... if not done:`).  A *blocked* (publishing) statement ends a path on its normal
+    continuation but not on its exception edge: a publish that raises has published nothing; a *sealed*
+    statement (a helper that cannot be left in any way before it has published) ends it altogether.  Returns {node: (path as list of node ids)} for the first visit."""
     order = sorted(flags)
     init = tuple(None for _ in order)
     seen: Dict[Tuple[int, tuple], Optional[Tuple[Tuple[int, tuple], str]]] = {(s, init): None for s in starts}
@@ -246,8 +276,8 @@ def reach_with_flags(g: CFG, starts: List[int], blocked: Set[int], flags: Set[st
                 continue
             if allowed is not None and lab in ("T", "F") and lab != allowed:
                 continue
-            if t in blocked:
-                continue
+            if nid in sealed or (nid in blocked and lab != EXC):
+                continue  # the statement has published; only its failing (nothing published) continuation goes on
             nxt = (t, new_env if lab not in (EXC, BASE) else envt)
             if nxt in seen:
                 continue
@@ -272,7 +302,9 @@ def run(repo: Repo, R: Report) -> None:
     wmod = repo.module(W)
     qmod = repo.module(Q)
     repo.func(W, "worker_loop")  # anchor
-    wl = nfunc(repo, W, "worker_loop", copyprop="all")
+    # "temps": locals of worker_loop keep their names (the job id variable is an anchor of D1/D4); the locals of
+    # inlined helpers are substituted, and a named channel / metadata dict is looked through by _deref
+    wl = nfunc(repo, W, "worker_loop")
     # every function of the worker module in normal form (status publishes are looked for in all of them)
     wfuncs: List[ast.AST] = []
     for qn, node in wmod.defs.items():
@@ -311,51 +343,36 @@ def run(repo: Repo, R: Report) -> None:
     r_corr = R.rule("C15-D4-correlation", "job id, channel templates, metadata/context keys and per-job values agree hop by hop between enqueue, run_forever and worker_loop, each a single definition taken from this job's message", 8)
     R.check(len(redefs) == 1, r_corr, W, "worker_loop", f"job id = {msg}.metadata.get({job_key!r})", "job id variable is redefined inside the job body (status could be published for another job)", loop.lineno)
 
-    loggers = logger_receivers(repo, wmod, wl)
+    g = CFG(wl, may_raise=job_may_raise(repo, wmod, wl, loop))
 
-    handler_stmts = {id(x) for h in ast.walk(loop) if isinstance(h, ast.ExceptHandler) for st in h.body for x in ast.walk(st)}
-
-    def may_raise(part: ast.AST) -> Set[str]:
-        if id(part) in handler_stmts and not isinstance(part, ast.Raise):
-            return set()  # assumption: the failure handlers themselves do not raise before publishing
-        for n in walk_no_nested(part):
-            if isinstance(n, (ast.Raise,)):
-                return {EXC}
-            if isinstance(n, ast.Call):
-                d = call_name(n) or ""
-                if isinstance(n.func, ast.Attribute) and n.func.attr in LOG_METHODS and dotted_name(n.func.value) in loggers:
-                    continue
-                if d in ("isinstance", "all", "any", "str", "type", "bool", "len") or d == f"{msg}.metadata.get":
-                    continue
-                return {EXC}
-        return set()
-
-    g = CFG(wl, may_raise=may_raise)
-
-    def publishes(n) -> bool:
+    def publishes(n) -> Optional[str]:
+        """'publish': the statement publishes this job's status (unless it raises); 'sealed': a summarised helper
+        that cannot be left, normally or by an exception, before it has published."""
         if n.ast is None or n.kind != "stmt":
-            return False
+            return None
         for c in calls_in(n.ast):
             if is_status_publish(c, job_var, wl):
-                return True
+                return "publish"
             h = helper_always_publishes(repo, wmod, c)
             if h is not None:
-                fn, idx = h
+                fn, idx, raises_unpublished = h
                 a = c.args[idx] if idx < len(c.args) else kwarg(c, fn.args.args[idx].arg)
                 if isinstance(a, ast.Name) and a.id == job_var:
-                    return True
-        return False
+                    return "publish" if raises_unpublished else "sealed"
+        return None
 
     heads = g.nodes_for(loop)
     if not heads:
         raise AnalysisError("worker_loop: loop header not in CFG")
-    pub_nodes = {n.id for n in g.nodes if publishes(n)}
+    kinds = {n.id: publishes(n) for n in g.nodes}
+    pub_nodes = {i for i, k in kinds.items() if k}
+    sealed_nodes = {i for i, k in kinds.items() if k == "sealed"}
     n_pub_nodes = len(pub_nodes)
     flags = _flag_names(wl)
     total_bad = 0
     for h in heads:
         starts = [t for t, lab in g.succ[h] if lab == "T"]
-        seen, path_to = reach_with_flags(g, starts, pub_nodes, flags, {BASE})
+        seen, path_to = reach_with_flags(g, starts, pub_nodes, sealed_nodes, flags, {BASE})
         for target, label in ((h, "next message"), (g.ret_exit, "worker returns"), (g.exc_exit, "exception escapes the worker")):
             if target in seen:
                 total_bad += 1
@@ -483,7 +500,7 @@ def run(repo: Repo, R: Report) -> None:
             R.check(n_succ > 0, r_res, W, "worker_loop", f"success status omits metadata[{marker_key!r}]", "every status carries the failure marker: successful jobs complete exceptionally", 0)
             # polarity: can a written failure value make the master's test false?
             for fn, val, qn in fail_values:
-                truthy = _provably_truthy(repo, wmod, wfuncs, fn, val)
+                truthy = _provably_truthy(repo, wmod, fn, val)
                 not_none = truthy or _provably_not_none(fn, val)
                 if test_kind == "presence":
                     ok = not_none
@@ -577,6 +594,18 @@ def run(repo: Repo, R: Report) -> None:
                 R.check(bool(writes), r_corr, W, qualname_of(fn), norm(c)[:70] + f" [context[{ctx_key!r}]]",
                         f"a status message is published whose context does not carry this job's id under {ctx_key!r}: the master cannot find the pending future", c.lineno)
     # payload of the job is built from this message
+    def from_this_message(e: ast.AST, depth: int = 0) -> bool:
+        """*e* reads this message (directly or through locals) and, besides it, only fresh objects built on the
+        spot and locals that are themselves (re)built inside the job body from this message."""
+        reads_msg = msg in {x.id for x in ast.walk(e) if isinstance(x, ast.Name)}
+        for nm in _free_names(e, msg):
+            defs = assigned_value(wl, nm)
+            inside = [st for st in ast.walk(loop) if isinstance(st, ast.Assign) and any(isinstance(t, ast.Name) and t.id == nm for t in st.targets)]
+            if depth >= 2 or not defs or len(inside) != len(defs) or not all(from_this_message(v, depth + 1) for v in defs):
+                return False
+            reads_msg = True
+        return reads_msg
+
     for c in calls_in(loop):
         if call_attr(c) == "Payload" and len(c.args) == 2:
             ok = True
@@ -584,9 +613,9 @@ def run(repo: Repo, R: Report) -> None:
                 if isinstance(a, ast.Name):
                     defs = [v for v in assigned_value(wl, a.id)]
                     inside = [st for st in ast.walk(loop) if isinstance(st, ast.Assign) and any(isinstance(t, ast.Name) and t.id == a.id for t in st.targets)]
-                    ok = ok and bool(defs) and len(inside) == len(defs) and all(msg in {x.id for x in ast.walk(v) if isinstance(x, ast.Name)} and not _free_names(v, msg) for v in defs)
+                    ok = ok and bool(defs) and len(inside) == len(defs) and all(from_this_message(v) for v in defs)
                 else:
-                    ok = ok and msg in {x.id for x in ast.walk(a) if isinstance(x, ast.Name)}
+                    ok = ok and from_this_message(a)
             R.check(ok, r_corr, W, "worker_loop", norm(c), "the job's payload is not built, inside the job body, from this message's data and context (state shared between jobs)", c.lineno)
         if call_attr(c) == "Pipeline" and c.args:
             a = c.args[0]
@@ -602,10 +631,197 @@ def run(repo: Repo, R: Report) -> None:
     from . import c14
 
     R.rule_prefix = "C15-D5/"
+    n_before = len(R.instances)
     try:
         c14.run(repo, R)
+    except AnalysisError as exc:
+        # A violation one of the re-applied rules has already located stays a violation: a later rule that
+        # no longer recognises the (changed) code must not turn the verdict into "cannot tell".
+        if not any(i.verdict == "violation" for i in R.instances[n_before:]):
+            raise
+        R.note(f"C15-D5: re-applied C14 rules stopped early ({exc}); the violation(s) located before that are reported")
     finally:
         R.rule_prefix = ""
+
+    # ------------------------------------------------------------------ D6 the loops' scan survives publishers
+    scan_rule(repo, R, rf, wl)
+
+
+def _message_loops(fn: ast.AST) -> List[ast.For]:
+    """for-loops of *fn* that drain a subscription: the iterable is `<x>.subscribe(...)` or a local bound to it."""
+    out = []
+    for n in walk_no_nested(fn):
+        if isinstance(n, ast.For):
+            vals = assigned_value(fn, n.iter.id) if isinstance(n.iter, ast.Name) else [n.iter]
+            if vals and all(isinstance(v, ast.Call) and call_attr(v) == "subscribe" for v in vals):
+                out.append(n)
+    return out
+
+
+def _catches_exception(loop: ast.AST, fn: ast.AST) -> bool:
+    prev = loop
+    for a in ancestors(loop):
+        if a is fn:
+            break
+        if isinstance(a, ast.Try) and any(prev is st for st in a.body):
+            for h in a.handlers:
+                names = [h.type] if h.type is not None and not isinstance(h.type, ast.Tuple) else (h.type.elts if h.type is not None else [])
+                if h.type is None or any((dotted_name(t) or "").split(".")[-1] in ("Exception", "BaseException", "RuntimeError") for t in names):
+                    return True
+        prev = a
+    return False
+
+
+def scan_rule(repo: Repo, R: Report, rf: ast.AST, wl: ast.AST) -> None:
+    """D6: the master's and the workers' message loops run the transport's channel scan inside `for msg in sub`.
+    Every job creates two new channels (jobs.<id>.cfg / jobs.<id>.status) from other threads, so a scan that walks
+    the live channel map raises `RuntimeError: dictionary changed size during iteration` in the looping thread;
+    run_forever has no handler there (the master dies, no pending Future ever completes) and worker_loop's
+    catch-all ends the worker.  Necessary condition: every iteration over the shared channel map is over a
+    snapshot taken in one C-level call, or holds the lock under which every insertion happens."""
+    r_scan = R.rule("C15-D6-scan-survives-publishers", "every iteration over the channel map shared between the transport and its subscriptions (the scan driven by the master's and the workers' `for msg in sub`) is over a one-call snapshot (list/tuple/sorted/.copy()) or under the lock held by every insertion; a live walk raises RuntimeError when another thread publishes on a new channel and kills the loop that completes the futures", 1)
+    loops = [(Q, "QueueSemantivaOrchestrator.run_forever", rf, l) for l in _message_loops(rf)] + [(W, "worker_loop", wl, l) for l in _message_loops(wl)]
+    if len(loops) < 2:
+        raise AnalysisError("message loops over a subscription not found in run_forever / worker_loop")
+    unprotected = [qn for _f, qn, fn, l in loops if not _catches_exception(l, fn)]
+    consequence = ("; " + ", ".join(sorted(set(unprotected))) + " has no handler around its message loop: the thread dies and no pending Future is ever completed") if unprotected else "; the loop's catch-all ends the thread silently"
+
+    tmod = repo.module(T)
+    classes = {qn: c for qn, c in tmod.defs.items() if isinstance(c, ast.ClassDef) and "." not in qn}
+
+    def init_of(c: ast.ClassDef) -> Optional[ast.FunctionDef]:
+        return next((st for st in c.body if isinstance(st, ast.FunctionDef) and st.name == "__init__"), None)
+
+    def self_attr_assigns(fn: ast.AST):
+        for st in walk_no_nested(fn):
+            tgt = val = None
+            if isinstance(st, ast.Assign) and len(st.targets) == 1:
+                tgt, val = st.targets[0], st.value
+            elif isinstance(st, ast.AnnAssign) and st.value is not None:
+                tgt, val = st.target, st.value
+            d = dotted_name(tgt) if tgt is not None else None
+            if d and d.startswith("self.") and d.count(".") == 1:
+                yield d[5:], val
+
+    # maps / locks created by a class for itself
+    own_maps: Dict[str, Dict[str, ast.AST]] = {}
+    own_locks: Dict[str, Set[str]] = {}
+    for cn, c in classes.items():
+        ini = init_of(c)
+        if ini is None:
+            continue
+        for attr, val in self_attr_assigns(ini):
+            if isinstance(val, (ast.Dict, ast.DictComp)) or (isinstance(val, ast.Call) and (call_name(val) or "").split(".")[-1] in DICT_CTORS):
+                own_maps.setdefault(cn, {})[attr] = val
+            elif isinstance(val, ast.Call) and (call_name(val) or "").split(".")[-1] in ("Lock", "RLock"):
+                own_locks.setdefault(cn, set()).add(attr)
+    # attributes of other classes that alias them (handed over at construction)
+    alias: Dict[str, Dict[str, Tuple[str, str]]] = {}  # class -> attr -> (owner class, owner attr)
+    for cn, c in classes.items():
+        for fn in [n for n in ast.walk(c) if isinstance(n, FuncNode)]:
+            for call in calls_in(fn, include_nested=False):
+                kn = (call_name(call) or "").split(".")[-1]
+                k = classes.get(kn)
+                kin = init_of(k) if k is not None else None
+                if kin is None:
+                    continue
+                kparams = [a.arg for a in kin.args.args][1:]
+                bound: Dict[str, ast.AST] = {p: a for p, a in zip(kparams, call.args)}
+                bound.update({kw.arg: kw.value for kw in call.keywords if kw.arg})
+                for p, a in bound.items():
+                    d = dotted_name(_deref(fn, a))
+                    if d and d.startswith("self.") and (d[5:] in own_maps.get(cn, {}) or d[5:] in own_locks.get(cn, set())):
+                        for attr, val in self_attr_assigns(kin):
+                            if isinstance(val, ast.Name) and val.id == p:
+                                alias.setdefault(kn, {})[attr] = (cn, d[5:])
+    shared_maps: Dict[str, Dict[str, Tuple[str, str]]] = {}  # class -> attr -> (owner, attr) for maps seen by more than one class
+    for kn, m in alias.items():
+        for attr, (cn, oattr) in m.items():
+            if oattr in own_maps.get(cn, {}):
+                shared_maps.setdefault(kn, {})[attr] = (cn, oattr)
+                shared_maps.setdefault(cn, {})[oattr] = (cn, oattr)
+    if not shared_maps:
+        raise AnalysisError("in_memory transport: channel map shared between transport and subscription not found")
+
+    def locks_held_at(node: ast.AST, cn: str) -> Set[Tuple[str, str]]:
+        """(owner class, owner lock attribute) of every `with self.<lock>` enclosing *node*."""
+        out: Set[Tuple[str, str]] = set()
+        for a in ancestors(node):
+            if isinstance(a, ast.With):
+                for it in a.items:
+                    d = dotted_name(it.context_expr)
+                    if d and d.startswith("self."):
+                        if d[5:] in own_locks.get(cn, set()):
+                            out.add((cn, d[5:]))
+                        elif d[5:] in alias.get(cn, {}):
+                            out.add(alias[cn][d[5:]])
+        return out
+
+    # insertion sites of each shared map and the locks common to all of them
+    insert_locks: Dict[Tuple[str, str], Optional[Set[Tuple[str, str]]]] = {}
+    for cn, amap in shared_maps.items():
+        for fn in [n for n in ast.walk(classes[cn]) if isinstance(n, FuncNode) and n.name != "__init__"]:
+            for n in walk_no_nested(fn):
+                key = None
+                if isinstance(n, ast.Subscript):
+                    d = dotted_name(n.value)
+                    if d and d.startswith("self.") and d[5:] in amap:
+                        owner = amap[d[5:]]
+                        ctor = own_maps[owner[0]][owner[1]]
+                        is_dd = isinstance(ctor, ast.Call) and (call_name(ctor) or "").endswith("defaultdict")
+                        if isinstance(n.ctx, ast.Store) or is_dd:
+                            key = owner
+                elif isinstance(n, ast.Call) and isinstance(n.func, ast.Attribute) and n.func.attr in ("setdefault", "update", "__setitem__"):
+                    d = dotted_name(n.func.value)
+                    if d and d.startswith("self.") and d[5:] in amap:
+                        key = amap[d[5:]]
+                if key is not None:
+                    held = locks_held_at(n, cn)
+                    insert_locks[key] = held if insert_locks.get(key) is None else (insert_locks[key] & held)  # type: ignore[operator]
+    if not insert_locks:
+        raise AnalysisError("in_memory transport: no insertion into the shared channel map found (publish)")
+
+    def live_walk(e: ast.AST, fn: ast.AST, cn: str, depth: int = 0) -> Optional[Tuple[str, str]]:
+        """Owner of the shared map *e* iterates lazily (not through a one-call snapshot), else None."""
+        amap = shared_maps.get(cn, {})
+        if isinstance(e, ast.Name) and depth < 3:
+            v = _deref(fn, e)
+            return live_walk(v, fn, cn, depth + 1) if v is not e and v is not None else None
+        d = dotted_name(e)
+        if d and d.startswith("self.") and d[5:] in amap:
+            return amap[d[5:]]
+        if isinstance(e, ast.Call):
+            if isinstance(e.func, ast.Attribute) and e.func.attr in ("items", "keys", "values") and not e.args:
+                return live_walk(e.func.value, fn, cn, depth)
+            if isinstance(e.func, ast.Name) and e.func.id in SNAPSHOT_FUNCS:
+                return None  # the map's own iteration happens inside one C-level call
+            if isinstance(e.func, ast.Attribute) and e.func.attr == "copy":
+                return None
+            for a in list(e.args) + [k.value for k in e.keywords]:  # enumerate / zip / filter / iter ...: lazy
+                r = live_walk(a, fn, cn, depth)
+                if r is not None:
+                    return r
+        if isinstance(e, ast.Starred):
+            return live_walk(e.value, fn, cn, depth)
+        return None
+
+    for cn in sorted(shared_maps):
+        for fn in [n for n in ast.walk(classes[cn]) if isinstance(n, FuncNode)]:
+            for n in walk_no_nested(fn):
+                if not isinstance(n, (ast.For, ast.AsyncFor, ast.comprehension)):
+                    continue
+                amap = shared_maps[cn]
+                base = n.iter
+                owner = live_walk(base, fn, cn)
+                mentions_map = any((dotted_name(x) or "").startswith("self.") and (dotted_name(x) or "")[5:] in amap for x in ast.walk(_deref(fn, base) or base))
+                if owner is None and not mentions_map:
+                    continue
+                common = insert_locks.get(owner) if owner is not None else None
+                locked = owner is not None and bool(common) and bool(locks_held_at(n if not isinstance(n, ast.comprehension) else n.iter, cn) & common)  # type: ignore[operator]
+                R.check(owner is None or locked, r_scan, T, qualname_of(fn),
+                        "for ... in " + norm(base)[:100],
+                        "the scan walks the live channel map shared with publishers: a publish on a new channel from another thread raises RuntimeError (dictionary changed size during iteration) inside `for msg in sub`" + consequence,
+                        getattr(base, "lineno", 0))
 
 
 def _free_names(expr: ast.AST, msg: str) -> Set[str]:
@@ -621,7 +837,7 @@ def _last_stmt(path: List[str]) -> str:
     return "?"
 
 
-def _provably_truthy(repo: Repo, mod, funcs: List[ast.AST], fn: ast.AST, val: ast.AST, depth: int = 0) -> bool:
+def _provably_truthy(repo: Repo, mod, fn: ast.AST, val: ast.AST, depth: int = 0) -> bool:
     """Value written by a failure publish is truthy for every failure (non-empty constant, exception object)."""
     if isinstance(val, ast.Constant):
         return bool(val.value)
